@@ -63,3 +63,32 @@ def replay_of(base_scn, tag, status_of=lambda name: "PASS", **kw):
     prev = previous_results(base_scn, status_of)
     s = base_scn.variant(f"/replay[{tag}]", params={"replay": "job1"}, previous=prev, **kw)
     return s
+
+
+def crash_residues(base_scn, deviations=True, limit=40):
+    """Scenarios whose initial pools are what a run of `base_scn` leaves behind when the job is killed right after some test ended
+    (graph state lost, pools kept, tests in flight leave nothing): every distinct pool content seen at an event boundary of the default
+    schedule and of every single-choice deviation from it."""
+    from vt.e1 import engine
+
+    seen, out = set(), []
+    x0 = engine.execute(base_scn, [])
+    prefixes = [[]]
+    if deviations:
+        for i, (kind, n, _) in enumerate(x0.points):
+            for alt in range(1, n):
+                prefixes.append(x0.choices[:i] + [alt])
+    for pre in prefixes:
+        x = x0 if not pre else engine.execute(base_scn, pre)
+        for snap in x.snapshots:
+            key = str(sorted((k, tuple(map(tuple, v))) for k, v in snap.items()))
+            if key in seen or not snap:
+                continue
+            seen.add(key)
+            own = {w: [(o, s_) for (o, v, s_) in items if s_ != "root"] for w, items in snap.items() if w != "shared"}
+            shared = [(o, s_) for (o, v, s_) in snap.get("shared", [])]
+            tag = ";".join(f"{w}:" + "+".join(s_ for _, s_ in items) for w, items in sorted(own.items()) if items)
+            out.append(base_scn.variant(f"/residue[{tag}]", own=own, shared=tuple(shared) + tuple(base_scn.shared)))
+            if len(out) >= limit:
+                return out
+    return out
